@@ -107,6 +107,25 @@ class Ctx:
                 return f" #{i + 1}"
         return ""
 
+    def guard(self, fn, *args, **kw):
+        """Run one group of rules; an AnalysisError inside it is recorded and the other groups still run
+        (so that a refutation found elsewhere is not masked by an undecided group)."""
+        try:
+            return fn(*args, **kw)
+        except AnalysisError as e:
+            self.__dict__.setdefault("errors", []).append(e)
+            return None
+        except RecursionError:
+            raise
+        except Exception as e:   # a crash of one rule group is an undecided group, never a verdict
+            import traceback
+            tb = traceback.format_exc().strip().splitlines()
+            self.__dict__.setdefault("errors", []).append(
+                AnalysisError("engine", f"{getattr(fn, '__name__', fn)}:{type(e).__name__}", f"{e} | {tb[-3].strip() if len(tb) > 2 else ''}"))
+            if os.environ.get("VERIF_DEBUG"):
+                traceback.print_exc()
+            return None
+
     def need(self, cond, rule, anchor, detail=""):
         """Fail-closed: an idiom / anchor the rule depends on must be there."""
         if not cond:
